@@ -88,6 +88,11 @@ def gen_functions(tier):
                 add(op, "CObj", c, "expr", True)
                 if op not in CMPS:
                     add(op, "ObjC", c, "inplace", True)
+    if quick:
+        # constants just outside the PyLongBinop range go through PyNumberBinop (type-dispatch helper)
+        add("Multiply", "ObjC", -(P30 + 1), "expr")
+        add("Multiply", "CObj", "0.0", "expr", True)
+        add("Add", "ObjC", -(P30 + 1), "expr")
     for i, f in enumerate(F):
         f["name"] = "f%d" % i
     return F
@@ -295,6 +300,9 @@ def emitted_helpers(c_text, F):
     for i, (p, name) in enumerate(pos):
         end = pos[i + 1][0] if i + 1 < len(pos) else len(c_text)
         body = c_text[p:end]
+        close = body.find("\n}\n")             # end of this C function
+        if close >= 0:
+            body = body[:close]
         m = re.search(r"__Pyx_Py(Long|Float)_(Bool)?([A-Za-z]+?)(ObjC|CObj)\(", body)
         res[name] = (m.group(1), m.group(2) or "", m.group(3), m.group(4)) if m else None
         if m:
@@ -307,6 +315,12 @@ def classify(f, kind, operand=""):
     if f["isfloat"] and f["op"] == "Remainder" and f["order"] == "CObj" and kind == "float" and "inf" in operand:
         # c % x, float constant c, x = +-inf of the sign of c
         return "floatconst_mod_infinite_divisor"
+    if f["op"] == "Multiply":
+        # PyNumberBinop shortcut `if (float_op1 == 0.) return op1;`: float zero times a negative int
+        if not f["isfloat"] and kind == "float" and operand in ("0.0", "-0.0") and f["c"] < -2 ** 30:
+            return "float_zero_times_negative_int"
+        if f["isfloat"] and f["c"] in ("0.0", "-0.0") and kind.startswith("int") and kind != "intsub" and operand.startswith("-"):
+            return "float_zero_times_negative_int"
     return "%s_%s_%s_%s" % (f["op"], f["order"], "floatconst" if f["isfloat"] else "intconst", kind)
 
 
